@@ -620,6 +620,14 @@ type verifWorld struct {
 	dirGone   bool
 }
 
+// maxRounds: 1-3 synchronizations per run in the quick tier, 1-5 in thorough.
+func (w *verifWorld) maxRounds() int {
+	if w.c.Tier == "thorough" {
+		return 5
+	}
+	return 3
+}
+
 func (w *verifWorld) managed(rel string) bool {
 	return verifMatchAny(w.globs, filepath.Base(rel))
 }
@@ -748,8 +756,13 @@ func (w *verifWorld) place(rel string, want *verifWant, label string) {
 				target = filepath.Join(w.outside, "victim.txt")
 			}
 		}
-		if want != nil && want.kind == verifWantSymlink && c.Draw(label+"-link-same", 3) == 0 {
-			target = want.target
+		if want != nil && want.kind == verifWantSymlink {
+			switch c.Draw(label+"-link-same", 3) {
+			case 0:
+				target = want.target
+			case 1:
+				target = verifLinkTargets[c.Draw(label+"-link-other", len(verifLinkTargets))]
+			}
 		}
 		if err := os.MkdirAll(filepath.Dir(p), 0755); err != nil {
 			c.Fatalf("mkdir: %v", err)
@@ -761,6 +774,9 @@ func (w *verifWorld) place(rel string, want *verifWant, label string) {
 	}
 }
 
+// two of the link targets have the same length
+var verifLinkTargets = []string{"../outside/victim.txt", "../outside/victim.txx", "/nonexistent/target", "snap.foo.elsewhere"}
+
 var verifWantKindTab = []int{verifWantNone, verifWantNone, verifWantNone, verifWantMemory, verifWantMemory, verifWantMemory, verifWantRef, verifWantRefMode, verifWantSymlink, verifWantMemory}
 
 // drawWant draws the desired state of one managed name (0 = not desired).
@@ -771,7 +787,7 @@ func (w *verifWorld) drawWant(rel string) *verifWant {
 		return want
 	}
 	if want.kind == verifWantSymlink {
-		want.target = []string{"../outside/victim.txt", "/nonexistent/target", "snap.foo.elsewhere"}[c.Draw("want-target", 3)]
+		want.target = verifLinkTargets[c.Draw("want-target", len(verifLinkTargets))]
 		return want
 	}
 	want.data = verifContent(filepath.Base(rel), verifContentWeights[c.Draw("want-variant", len(verifContentWeights))])
@@ -1167,11 +1183,17 @@ func (w *verifWorld) judge(r *verifRound, round int) *verifVerdict {
 			v.violate("C23/spurious-error", "round %d: call failed with %q although nothing was in the way and no fault fired", round, verifErrText(r.err))
 		}
 		v.count("probe:fail-closed")
+		dirsHit := map[string]bool{}
 		for rel := range before.direct {
 			if w.managed(rel) && !undeletable(rel) {
-				v.count("probe:erase-removed-existing")
-				break
+				dirsHit[filepath.Dir(rel)] = true
 			}
+		}
+		if len(dirsHit) > 0 {
+			v.count("probe:erase-removed-existing")
+		}
+		if len(dirsHit) > 1 {
+			v.count("probe:tree-erase-across-directories")
 		}
 	case allExact && undeletableStale != "":
 		// only a removal failed: the desired files are all in place, and
@@ -1305,6 +1327,10 @@ func verifOrderVariant(base []string, k int) []string {
 // decided by Go's map iteration order, which the tape cannot control.
 const verifExecutions = 5
 
+// verifExecutionsVerbose is used when the run is re-executed for a replay file
+// or by --replay (cost does not matter there, reproducing does).
+const verifExecutionsVerbose = 12
+
 // ---------------------------------------------------------------------------
 // the run
 
@@ -1395,7 +1421,11 @@ func (w *verifWorld) runRound(round int, tmpl *verifRound, entries int, call fun
 	v := w.judge(r, round)
 	first := r
 	if r.err != nil && len(v.viol) == 0 && !w.dirGone && entries >= 2 {
-		for k := 1; k < verifExecutions; k++ {
+		max := verifExecutions
+		if c.Verbose {
+			max = verifExecutionsVerbose
+		}
+		for k := 1; k < max; k++ {
 			w.restore(first.before)
 			var reuse *verifSnap
 			if k > 1 {
@@ -1519,7 +1549,7 @@ func verifRunDir(w *verifWorld) {
 		c.Logf("the directory does not exist")
 	}
 
-	rounds := 1 + c.Draw("rounds", 3)
+	rounds := 1 + c.Draw("rounds", w.maxRounds())
 	var wants map[string]*verifWant
 	for round := 0; round < rounds && len(c.Violations) == 0; round++ {
 		// desired map: redraw, or keep the previous one (idempotence)
@@ -1582,7 +1612,7 @@ func verifRunTree(w *verifWorld) {
 	c := w.c
 	w.globs = verifTreeGlobSets[c.Draw("globs", len(verifTreeGlobSets))]
 	c.Logf("globs=%v api=EnsureTreeState", w.globs)
-	rounds := 1 + c.Draw("rounds", 3)
+	rounds := 1 + c.Draw("rounds", w.maxRounds())
 	var wants map[string]*verifWant
 	var contentDirs map[string]bool
 	squat := false
@@ -1667,7 +1697,7 @@ func verifRunFile(w *verifWorld) {
 	name := []string{"snap.foo.app", "70-snap.foo.rules", verifLongName}[[]int{0, 0, 0, 1, 1, 2}[c.Draw("file-name", 6)]]
 	w.globs = []string{name}
 	others := []string{"snap.foo.svc", "other.txt"}
-	rounds := 1 + c.Draw("rounds", 3)
+	rounds := 1 + c.Draw("rounds", w.maxRounds())
 	var want *verifWant
 	for round := 0; round < rounds && len(c.Violations) == 0; round++ {
 		if round == 0 || c.Draw("redraw-wants", 3) != 0 {
